@@ -6,6 +6,7 @@ import (
 	"encoding/binary"
 	"encoding/json"
 	"fmt"
+	sessionsapi "github.com/oauth2-proxy/oauth2-proxy/v7/pkg/apis/sessions"
 	"net"
 	"net/http"
 	"net/url"
@@ -97,18 +98,22 @@ var c15Paths = []string{"/", "/api", "/api/", "/api/v1", "/apix", "/x/api", "/pu
 var c15Queries = []string{"", "?", "?a=1", "?x=/public", "?/api", "?next=/public/a&b=2", "?a=1#/public", "?%2Fpublic", "?x=^/api", "?/private"}
 
 type c15Case struct {
-	Rules     c15RuleSet `json:"rules"`
-	Preflight bool       `json:"preflight"`
-	Method    string     `json:"method"`
-	Target    string     `json:"target"`
-	Via       string     `json:"via,omitempty"` // direct | x-forwarded-uri (auth-only endpoint, reverse-proxy mode)
-	Expected  string     `json:"expected"`
-	Observed  string     `json:"observed"`
+	Rules     c15RuleSet  `json:"rules"`
+	Preflight bool        `json:"preflight"`
+	Method    string      `json:"method"`
+	Target    string      `json:"target"`
+	Via       string      `json:"via,omitempty"` // direct | x-forwarded-uri (auth-only endpoint, reverse-proxy mode)
+	Headers   [][2]string `json:"other_headers,omitempty"`
+	Expected  string      `json:"expected"`
+	Observed  string      `json:"observed"`
 }
+
+// c15Extra: further request headers for the relational checks ("other headers have no influence").
+var c15Extra [][2]string
 
 func c15Observe(px *Proxy, up *world.Upstream, method, target string) (exempt bool, status int, pan any) {
 	up.Take()
-	resp := world.Serve(px.H, &world.Req{Method: method, Target: target, Host: "app.example.com"})
+	resp := world.Serve(px.H, &world.Req{Method: method, Target: target, Host: "app.example.com", Headers: c15Extra})
 	hits := len(up.Take())
 	if resp.Panic != nil {
 		return false, 0, resp.Panic
@@ -125,7 +130,7 @@ func c15Observe(px *Proxy, up *world.Upstream, method, target string) (exempt bo
 // endpoint of a proxy in reverse-proxy mode, the request path arrives in X-Forwarded-Uri.
 func c15ObserveForwarded(px *Proxy, up *world.Upstream, method, target string) (exempt bool, status int, pan any) {
 	up.Take()
-	resp := world.Serve(px.H, &world.Req{Method: method, Target: "/oauth2/auth", Host: "app.example.com", Headers: [][2]string{{"X-Forwarded-Uri", target}}})
+	resp := world.Serve(px.H, &world.Req{Method: method, Target: "/oauth2/auth", Host: "app.example.com", Headers: append([][2]string{{"X-Forwarded-Uri", target}}, c15Extra...)})
 	up.Take()
 	if resp.Panic != nil {
 		return false, 0, resp.Panic
@@ -133,8 +138,34 @@ func c15ObserveForwarded(px *Proxy, up *world.Upstream, method, target string) (
 	return resp.Status == http.StatusAccepted, resp.Status, nil
 }
 
+// c15OtherHeaders: header sets that must not influence the decision.
+func c15OtherHeaders(method, outsiderCookie string) [][][2]string {
+	other := "GET"
+	if method == "GET" {
+		other = "OPTIONS"
+	}
+	return [][][2]string{
+		{{"X-Forwarded-Method", other}, {"X-Http-Method-Override", other}},
+		{{"X-Forwarded-Method", "POST"}, {"X-Original-Method", "DELETE"}},
+		{{"Cookie", outsiderCookie}},
+	}
+}
+
+func c15Short(h [][2]string) string {
+	var p []string
+	for _, kv := range h {
+		v := kv[1]
+		if len(v) > 40 {
+			v = v[:40] + "…"
+		}
+		p = append(p, kv[0]+": "+v)
+	}
+	return strings.Join(p, ", ")
+}
+
 func c15BuildRoutes(rs c15RuleSet, preflight bool, up *world.Upstream, more ...string) *Proxy {
-	flags := append(append(baseFlags(up.URL()), "--email-domain=*"), more...)
+	// (the e-mail rule admits example.com only: the outsider's session cookie is valid but not authorised)
+	flags := append(append(baseFlags(up.URL()), "--email-domain=example.com", "--cookie-secure=false"), more...)
 	for _, r := range rs.Routes {
 		flags = append(flags, "--skip-auth-route="+r)
 	}
@@ -148,6 +179,12 @@ func c15BuildRoutes(rs c15RuleSet, preflight bool, up *world.Upstream, more ...s
 }
 
 func c15Routes(c *Ctx, up *world.Upstream) {
+	mint := mustProxy(&ProxyCfg{Flags: append(baseFlags(up.URL()), "--email-domain=*", "--cookie-secure=false")})
+	outsiderCookie, merr := concMint(mint, &sessionsapi.SessionState{User: "mallory-sub", Email: "mallory@elsewhere.example.org", AccessToken: "at-m"}, "app.example.com")
+	if merr != nil {
+		c.Error("C15: cannot mint the outsider's session: %v", merr)
+		return
+	}
 	caseNo := 0
 	for _, rs := range c15RuleSets {
 		for _, preflight := range []bool{false, true} {
@@ -173,6 +210,33 @@ func c15Routes(c *Ctx, up *world.Upstream) {
 						}
 						e1 := c15Exempt(rules, preflight, method, u.Path)
 						e2 := c15Exempt(rules, preflight, method, u.EscapedPath())
+						// other headers have no influence: a header naming another method, and the session cookie
+						// of a user whom the proxy's e-mail rule does not admit, change nothing about the decision
+						if base, st0, p0 := observe(px, up, method, path); p0 == nil && !(via == "direct" && (st0 == http.StatusMovedPermanently || st0 == http.StatusPermanentRedirect)) {
+							for hi, extra := range c15OtherHeaders(method, outsiderCookie) {
+								c15Extra = extra
+								got, status, pan := observe(px, up, method, path)
+								c15Extra = nil
+								c.Inc("evaluations")
+								c.Inc("route_checks_with_other_headers")
+								if pan == nil && got == base {
+									continue
+								}
+								key := "C15/route-decision-depends-on-header:" + []string{"method-override", "method-override", "session-cookie"}[hi]
+								cs := c15Case{Rules: rs, Preflight: preflight, Method: method, Target: path, Via: via, Headers: extra,
+									Expected: fmt.Sprintf("exempt=%v (the decision without these headers)", base), Observed: fmt.Sprintf("exempt=%v status=%d panic=%v", got, status, pan)}
+								ex := extra
+								c.confirm(key, fmt.Sprintf("rules %v preflight=%v via %s: %s %s is exempt=%v, but with %s it is exempt=%v (status %d)", rs, preflight, via, method, path, base, c15Short(ex), got, status),
+									len(path), cs, func() (string, bool) {
+										c15Extra = nil
+										a, _, _ := observe(px, up, method, path)
+										c15Extra = ex
+										b, _, _ := observe(px, up, method, path)
+										c15Extra = nil
+										return key, a != b
+									})
+							}
+						}
 						var first *bool
 						for _, q := range c15Queries {
 							target := path + q
@@ -561,6 +625,16 @@ func init() {
 			observe := c15Observe
 			if cs.Via == "x-forwarded-uri" {
 				px, observe = c15BuildRoutes(cs.Rules, cs.Preflight, up, "--reverse-proxy=true"), c15ObserveForwarded
+			}
+			if len(cs.Headers) > 0 {
+				a, _, _ := observe(px, up, cs.Method, cs.Target)
+				c15Extra = cs.Headers
+				b, st, _ := observe(px, up, cs.Method, cs.Target)
+				c15Extra = nil
+				if a != b {
+					c.Violate("C15/route-decision-depends-on-header:replayed", fmt.Sprintf("exempt=%v without, exempt=%v (status %d) with %s", a, b, st, c15Short(cs.Headers)), 1, cs)
+				}
+				return fmt.Sprintf("without the headers exempt=%v, with them exempt=%v", a, b)
 			}
 			got, status, pan := observe(px, up, cs.Method, cs.Target)
 			base, _, _ := observe(px, up, cs.Method, pathOf(cs.Target))
